@@ -242,7 +242,7 @@ func verifC40Sites(into map[string]bool) {
 	}
 }
 
-var verifC40Hangs int
+var verifC40Hangs, verifC40HLSHangs int
 
 // verifC40Sample: one entry per goroutine that is inside internal/core or internal/servers/hls and is
 // WAITING: its innermost (at most four) frames of those packages, innermost first, joined by "<", then
@@ -342,16 +342,25 @@ func verifC40Exec(op string) string {
 	if f[0] != "stress" && f[0] != "hls" {
 		return "bad-op"
 	}
-	if verifC40Hangs >= 2 {
-		// the process already carries the leaked goroutines of two hung runs: stop searching
-		return "skipped"
-	}
 	if f[0] == "hls" {
+		// child process: a hung run leaks nothing here; the budget only bounds the time spent on a defect
+		// that is already known to hang (2 hung hls runs in quick, 6 in thorough)
+		budget := 2
+		if os.Getenv("VERIF_TIER") == "thorough" {
+			budget = 6
+		}
+		if verifC40HLSHangs >= budget {
+			return "skipped"
+		}
 		a := verifC40Child(op)
 		if strings.HasPrefix(a, "hang") {
-			verifC40Hangs++
+			verifC40HLSHangs++
 		}
 		return a
+	}
+	if verifC40Hangs >= 2 {
+		// this process already carries the leaked goroutines of two hung in-process runs: stop searching
+		return "skipped"
 	}
 	seed := uint64(verifutil.AtoI64(f[1]))
 	workers, iters, mix, closeEarly := verifutil.Atoi(f[2]), verifutil.Atoi(f[3]), verifutil.Atoi(f[4]), f[5] == "1"
